@@ -24,6 +24,7 @@ from ..report import AnalysisError
 from .. import locsets
 from ..model import key_in, canon as K
 
+TOK = "hypnotoad/cases/tokamak.py"
 MESH = "hypnotoad/core/mesh.py"
 EQ = "hypnotoad/core/equilibrium.py"
 
@@ -266,6 +267,10 @@ GUARDS = [
     (MESH, "MeshRegion.calcMetric", "shiftedmetric=False refused", ["notself.user_options.shiftedmetric"], None, False),
     (MESH, "Mesh.redistributePoints", "orthogonal mesh refused", ["self.user_options.orthogonal"], None, False),
     (EQ, "EquilibriumRegion._checkMonotonic", "spacing function non-decreasing", ["scheck[1:]<scheck[:-1]"], "scheck =", False),
+    (TOK, "TokamakEquilibrium.describeDoubleNull", "connected double null refused when the second X-point lies beyond the first outer-SOL surface",
+     ['segments["outer_sol"]["psi_vals"][1]', "self.psi_sep[1]"], "segments = self.segmentsWithPsivals(segments)", False),
+    (TOK, "TokamakEquilibrium.describeDoubleNull", "connected double null refused when the second X-point lies beyond the first inner-SOL surface",
+     ['segments["inner_sol"]["psi_vals"][1]', "self.psi_sep[1]"], "segments = self.segmentsWithPsivals(segments)", False),
 ]
 
 
@@ -304,6 +309,24 @@ def r2(prog, rep):
                     detail.append("a return lies between definition and guard")
         rep.ob("R2", "%s: guard `%s` raises%s" % (qn, label, ", NaN-safe, after the guarded definition" if nan_safe or deftok else ""), ok, f.site(g), "; ".join(detail), key="guard/%s/%s" % (qn, label))
     rep.floor("R2.guards", n, 20)
+    # a guard written twice in one block stands where a different guard was meant
+    from .. import redundancy
+    HARMLESS = {
+        ("MeshRegion.calcHy", K("not numpy.all(hy.xlow > 0.0)")): "second, terser copy; all four locations are guarded above (R2 instances hy.* > 0)",
+        ("MeshRegion.calcHy", K("not numpy.all(hy.ylow > 0.0)")): "as for xlow",
+        ("MeshRegion.calcHy", K("not numpy.all(hy.corners > 0.0)")): "as for xlow",
+    }
+    dups = []
+    nfun = 0
+    for f in prog.all_funcs():
+        nfun += 1
+        for a, b, t in redundancy.duplicate_guards(f):
+            if (f.qualname, t) in HARMLESS:
+                continue
+            dups.append((f, a, b, t))
+            rep.ob("R2", "%s: guard `%s` is not repeated in the same block" % (f.qualname, t[:60]), False, f.site(b),
+                   "same test as the guard at line %d: the second can never fire, so the condition that was meant is not checked" % a.lineno, key="guard/duplicate/%s/%s" % (f.qualname, t[:60]))
+    rep.ob("R2", "no raising guard is written twice in one block (%d functions scanned, %d listed harmless repeats)" % (nfun, len(HARMLESS)), not dups, "", "", key="guard/duplicate/none")
     # unknown topologies raise in the writer
     w = prog.func(MESH, "BoutMesh.writeGridfile")
     chains = _len_chains(w)
